@@ -19,7 +19,7 @@ func init() {
 			"and the authorization loader applies the same case analysis as the live saver (C06's sibling rule); LOAD-ORDER the constructor calls the loaders in dependency order (server keys, temporary key, GCA key, authorizations, archived weeks - which set the window offset -, reports), each only after the previous one succeeded; " +
 			"MONOTONE-LOAD a loader aborts start-up on a persisted record only for reasons that no later accepted operation can create: a failed verification under the write-once GCA key / the device's key; " +
 			"an abort on 'id not in the device table' is allowed only after the record's id was looked up in the ban set (every deletion from the device table adds the id to the ban set), so reports of a since-banned device are skipped instead of making the restart fail; " +
-			"the persisted encodings round-trip (C15). NOT decided: equality of the complete reloaded state with the pre-restart state as a behavioural claim over histories; live impact rates (not persisted by design). " +
+			"the persisted encodings round-trip (C15). LOG every writer of a record log (authorizations, archived weeks, reports) appends or creates the file empty during construction; the report loader visits record i = 0,1,... while i < len/80 and, like every loop of the authorization and archive loaders, is left only at its end or by an error that aborts start-up. NOT decided: equality of the complete reloaded state with the pre-restart state as a behavioural claim over histories; live impact rates (not persisted by design). " +
 			"Noted: replay re-appends each replayed, still-live report to the log (the observable state is equal, the file grows by at most one copy per restart).",
 		Assumptions: append([]string{"the durable files are written by this server only (README: data on disk is trusted)"}, baseAssumptions...),
 		Run:         runC04,
